@@ -4,7 +4,7 @@ import json, os, subprocess
 V = os.path.dirname(os.path.dirname(os.path.abspath(__file__)))
 
 OPEN = [
- {"id": "KF-XBW-RANK", "property": ["C03"], "status": "open",
+ {"id": "KF-XBW-RANK", "property": ["C03", "C06", "C08"], "status": "open",
   "match": {"kind": ["XBW"], "op": ["rank"], "fclass": "order", "site": "oracle"},
   "what": "XBW locateRank/extractRank are the identity on XBW (trie) IDs, which are not lexicographic ranks: extractRank(k) is not the k-th smallest string",
   "witness": {"input": ["cb", "cbba"], "call": "extractRank(1)", "expected": "cb", "got": "cbba"},
@@ -46,6 +46,10 @@ FIXED = {
  "SSA::locate forgets the separator": (["C05"], "FMINDEX locateSubstr/extractSubstr lost members: a sampled occurrence following an unsampled one was mapped with the previous occurrence's ID"),
  "BitSequenceRRR handles blocks without offset bits": (["C07", "C19"], "BitSequenceRRR build/rank1 touched O[0] of a zero-length O (all blocks uniform) and mis-read the offset of a leading uniform block"),
  "RPFC/RPHTFC decode the first symbols of an internal string": (["C02", "C07"], "RPFC/RPHTFC locate heap overflow: a rule expanded into a maxlength-sized VByte scratch buffer"),
+ "the front-coding constructors build with the corrected bucket size": (["C07", "C12"], "bucket size 0 spun forever in Reallocate(0) and bucket size 1 built a broken dictionary (the constructors used the uncorrected parameter)"),
+ "HASHHF constructor does not look for a string after the last one": (["C07"], "HASHHF constructor read sorting[elements] (past the vector) when the look-ahead of the next-to-last string ran over the last one"),
+ "HASHHF zero-initialises its text buffer": (["C07", "C08"], "HASHHF images contained one never-written byte of textStrings (two builds of the same input differed)"),
+ "HASHHF constructor reserves room for the three bytes": (["C07"], "HASHHF constructor wrote/saved up to three bytes past textStrings when the last string ended at the capacity boundary"),
  "the chunk decoders do not take a zero byte": (["C01", "C04", "C07", "C18"], "HTFC/HHTFC: strings sharing a prefix of 128, 256, ... bytes with their predecessor undecodable (VByte zero byte taken for the terminator)"),
  "a decoding-table entry never describes more than the 15 symbols": (["C01", "C07", "C18"], "HASHHF/HASHUFFDAC/HHTFC: 16 consecutive one-bit codewords overflowed the 4-bit length of a table entry (e.g. one string of 700 x's)"),
  "FMINDEX maps the sampled position that follows the text": (["C07"], "FMINDEX construction read past the separators bitmap when the text length is a multiple of the sampling step and of 15"),
